@@ -550,6 +550,8 @@ fn mode_stage(argc: c_int, argv: *const *const c_char) -> c_int {
     let code = num(arg_str(argv, 7)) as c_int;
     let rep = Rep::open(arg_bytes(argv, 8));
     let emit = if argc > 9 { num(arg_str(argv, 9)) } else { 0 };
+    // optional: stop reading after <take> bytes (a consumer that exits before its input ends, like `head -c N`)
+    let take = if argc > 10 { num(arg_str(argv, 10)) } else { 0 };
     let mut buf = vec![0u8; 1 << 16];
     let mut len: u64 = 0;
     let mut h = FNV_INIT;
@@ -577,7 +579,11 @@ fn mode_stage(argc: c_int, argv: *const *const c_char) -> c_int {
         }
     } else {
         loop {
-            let r = unsafe { libc::read(0, buf.as_mut_ptr() as *mut _, buf.len()) };
+            let want = if take > 0 { std::cmp::min(buf.len() as u64, take - len) as usize } else { buf.len() };
+            if take > 0 && want == 0 {
+                break;
+            }
+            let r = unsafe { libc::read(0, buf.as_mut_ptr() as *mut _, want) };
             if r > 0 {
                 let r = r as usize;
                 h = fnv_update(h, &buf[..r]);
